@@ -22,6 +22,13 @@ J c14a_to_json(const C14aCase& c) {
   for (const Step& s : c.steps) { J q = query_to_json(s.q); q.set("check", s.check); if (s.zone) q.set("zone", s.zone); st.push(q); }
   j.set("steps", st);
   J sl = J::arr(); sl.push("steps");
+  if (c.part == "order") {
+    J ob = J::arr(); for (const std::string& b : c.order_bases) ob.push(b);
+    j.set("order_bases", ob);
+    J w = J::obj(); for (auto& kv : c.want) w.set(kv.first, kv.second);
+    j.set("want", w);
+    sl = J::arr(); sl.push("order_bases");
+  }
   j.set("shrink_lists", sl);
   return j;
 }
@@ -31,7 +38,9 @@ bool c14a_from_json(const J& j, C14aCase* c) {
   c->steps.clear();
   for (const J& q : j.at("steps").a) { Step s; s.q = query_from_json(q); s.check = q.getb("check", true); s.zone = static_cast<int>(q.geti("zone")); c->steps.push_back(s); }
   c->explicit_steps = true;
-  return !c->base.empty();
+  if (j.has("order_bases")) { for (const J& b : j.at("order_bases").a) c->order_bases.push_back(b.s); }
+  if (j.has("want")) { for (auto& kv : j.at("want").o) c->want[kv.first] = kv.second.s; }
+  return !c->base.empty() || !c->order_bases.empty();
 }
 
 namespace {
@@ -178,6 +187,103 @@ void build_enum_steps(C14aCase* c, ZoneInfo& zi) {
 
 }  // namespace
 
+std::map<std::string, std::string> g_c14_refs;
+
+std::string zone_fingerprint(const cctz::time_zone& tz, const std::string& bytes) {
+  uint64_t h = 0xf1;
+  TzData d; TzLayout L;
+  std::vector<int64_t> ts;
+  if (parse_tzif(bytes, &d, &L)) for (int64_t t : d.times) if (t > -(1LL << 58) && t < (1LL << 58)) ts.push_back(t);
+  std::sort(ts.begin(), ts.end());
+  std::vector<int64_t> probes = {0, 1700000000};
+  size_t from = ts.size() > 60 ? ts.size() - 60 : 0;
+  for (size_t i = from; i < ts.size(); ++i) { probes.push_back(ts[i] - 1); probes.push_back(ts[i]); }
+  int64_t last = ts.empty() ? 0 : ts.back();
+  for (int k = 0; k < 160; ++k) probes.push_back(last + k * 9 * 86400LL + 3601);      // four years after the table, every nine days
+  for (int k = 1; k <= 12; ++k) probes.push_back(last + k * 400LL * 31556952LL / 12);  // and across the 400-year seam
+  for (int64_t t : probes) { Query q; q.k = Q_LOOKUP_TP; q.a = t; h = hash_str(run_query(tz, q), h); }
+  { Query q; q.k = Q_NEXT; q.a = last - 400 * 86400LL;
+    for (int hop = 0; hop < 14; ++hop) {
+      cctz::time_zone::civil_transition tr;
+      if (!tz.next_transition(tp_of(q.a), &tr)) break;
+      std::string r = run_query(tz, q);
+      h = hash_str(r, h);
+      int64_t t = tz.lookup(tr.to).trans.time_since_epoch().count();
+      if (t <= q.a) break;
+      q.a = t;
+    } }
+  h = hash_str(tz.description(), h);
+  return hex64(h);
+}
+
+std::string fingerprint_of_base_alone(const std::string& base) {
+  clear_zone_cache();
+  Loader ld;
+  cctz::time_zone tz;
+  std::string bytes = base_bytes(base);
+  if (bytes.empty() || !ld.load(bytes, &tz, "alone")) return "rejected";
+  return zone_fingerprint(tz, bytes);
+}
+
+namespace {
+// Shipped zones grouped by the rule string of their footer: zones that share it are the ones a process-wide table
+// keyed by it (or by anything derived from it) would confuse.
+const std::vector<std::vector<std::string>>& footer_groups() {
+  static std::vector<std::vector<std::string>> groups;
+  if (!groups.empty()) return groups;
+  std::map<std::string, std::vector<std::string>> by;
+  for (const std::string& n : shipped_names()) {
+    TzData d; TzLayout L;
+    if (parse_tzif(shipped_bytes(n), &d, &L)) by[d.footer].push_back(n);
+  }
+  for (auto& kv : by) if (kv.second.size() >= 2) groups.push_back(kv.second);
+  return groups;
+}
+}  // namespace
+
+static Outcome exec_order(const C14aCase& c, bool keep_log, Stats* stats) {
+  Outcome out;
+  clear_zone_cache();
+  Loader ld;
+  uint64_t lh = 0x140;
+  std::string sofar;
+  int64_t judged = 0;
+  for (const std::string& b : c.order_bases) {
+    std::string bytes = base_bytes(b);
+    cctz::time_zone tz;
+    std::string fp = (!bytes.empty() && ld.load(bytes, &tz, "order")) ? zone_fingerprint(tz, bytes) : "rejected";
+    lh = hash_str(b + "=" + fp, lh);
+    if (keep_log) out.log.push_back("load " + b + " -> fingerprint " + fp);
+    auto w = c.want.find(b);
+    const std::string* want = w != c.want.end() ? &w->second : nullptr;
+    if (!want) { auto g = g_c14_refs.find(b); if (g != g_c14_refs.end()) want = &g->second; }
+    if (want) {
+      ++judged;
+      if (*want != fp) {
+        Violation v; v.cls = "c14:load-order-dependence"; v.site = b + " after other zones were loaded";
+        v.detail = "fingerprint " + fp + ", but " + *want + " in a process that loads only this zone; loaded before it: " + (sofar.empty() ? "(nothing)" : sofar);
+        out.violations.push_back(v);
+      }
+    }
+    sofar += (sofar.empty() ? "" : ", ") + b;
+  }
+  out.nontrivial = judged > 0;
+  out.log_hash = lh;
+  out.distinct_key = lh;
+  out.steps = static_cast<int64_t>(c.order_bases.size());
+  if (!out.violations.empty() || keep_log) {
+    // make the case self-contained for a replay: carry the references of the zones involved
+    J w = J::obj();
+    for (const std::string& b : c.order_bases) {
+      if (c.want.count(b)) w.set(b, c.want.at(b));
+      else if (g_c14_refs.count(b)) w.set(b, g_c14_refs.at(b));
+    }
+    out.extra = w;
+  }
+  if (stats) { stats->add("zones_loaded_in_sequence", static_cast<int64_t>(c.order_bases.size())); stats->add("fingerprints_compared_with_single_zone_process", judged); }
+  return out;
+}
+
 int64_t c14a_part_size(const std::string& part, const std::string& tier) {
   if (part == "enum") return static_cast<int64_t>(enum_panel(tier).size()) * kMaxIntervals;
   return -1;
@@ -193,6 +299,19 @@ C14aCase gen_c14a(const std::string& part, const std::string& tier, uint64_t see
     return c;
   }
   Rng r(mix64(mix64(seed, hash_str("C14a" + part)), static_cast<uint64_t>(idx)));
+  if (part == "order") {
+    // Up to eight zones that share a footer rule, in random order, plus two from anywhere (and sometimes a synthetic one).
+    const auto& groups = footer_groups();
+    std::vector<std::string> g = groups.empty() ? std::vector<std::string>() : groups[r.below(groups.size())];
+    if (r.chance(0.5) && !groups.empty()) { size_t big = 0; for (size_t i = 0; i < groups.size(); ++i) if (groups[i].size() > groups[big].size()) big = i; if (r.chance(0.5)) g = groups[big]; }
+    for (size_t i = g.size(); i > 1; --i) std::swap(g[i - 1], g[r.below(i)]);
+    if (g.size() > 8) g.resize(8);
+    for (const std::string& n : g) c.order_bases.push_back("shipped:" + n);
+    for (int i = 0; i < 2; ++i) c.order_bases.insert(c.order_bases.begin() + static_cast<long>(r.below(c.order_bases.size() + 1)), "shipped:" + r.pick(shipped_names()));
+    if (r.chance(0.3)) c.order_bases.insert(c.order_bases.begin() + static_cast<long>(r.below(c.order_bases.size() + 1)), "synth:" + std::to_string(r.below(200)));
+    c.base = c.order_bases[0];
+    return c;
+  }
   uint64_t p = r.below(100);
   static const std::vector<std::string> popular = {"America/New_York", "Europe/London", "Australia/Lord_Howe", "Asia/Kathmandu", "Africa/Cairo",
                                                    "Pacific/Apia", "America/Sao_Paulo", "Asia/Tehran", "Africa/Casablanca", "Etc/UTC"};
@@ -233,6 +352,7 @@ C14aCase gen_c14a(const std::string& part, const std::string& tier, uint64_t see
 }
 
 Outcome exec_c14a(const C14aCase& cc, bool keep_log, Stats* stats) {
+  if (cc.part == "order") return exec_order(cc, keep_log, stats);
   Outcome out;
   clear_zone_cache();
   Loader ld;
